@@ -1983,6 +1983,7 @@ SRC_THEOREMS = ['GV.C20Src.' + t for t in (
     'loop1_step', 'loop1_eq', 'loop3_step', 'loop3_eq', 'convertDt_get', 'loop4_step', 'loop4_eq', 'incl_eq', 'loop2_step',
     'loop2_eq', 'toShapefile_eq', 'shpGetDt_range', 'filter_eq_dictDel', 'rloop2_step', 'rloop2_eq', 'rloop1_step', 'rloop1_eq',
     'convLit_eq', 'fromShapefile_eq', 'toP_get', 'strSet_keys', 'toGeopandas_eq',
+    'gpdGetDt_range', 'propFields_contains', 'gloop1_step', 'gloop1_eq', 'fromGeopandas_eq',
     'srcReadShp_eq', 'srcFromGeopandas_eq', 'shp_roundtrip_partial_src', 'gpd_roundtrip_partial_src')]
 
 
